@@ -6,7 +6,10 @@
 #          and /repo is ALWAYS restored afterwards.  Use only when nothing else is using /repo.
 set -u
 FULL=0
+GEN=0
 if [ "$1" = "--full" ]; then FULL=1; shift; fi
+# --gen : like the default (scratch copy, /repo untouched) but WITH regeneration and proof build from the scratch copy
+if [ "$1" = "--gen" ]; then GEN=1; shift; fi
 PATCH="$(readlink -f "$1")"; shift
 if [ $FULL = 1 ]; then
   cd /repo || exit 2
@@ -25,6 +28,7 @@ else
   cd /verif
   for p in "$@"; do
     echo "=== $p (harness path) with $PATCH"
-    VERIF_SRC="$D/w/src" ./check "$p" --tier quick --no-build 2>&1 | grep -E "^\[|VIOLATION|KNOWN-FINDING|broken|disagreement" | cut -c1-400 | head -12
+    if [ $GEN = 1 ]; then NB=""; export VERIF_REPO="$D/w"; else NB="--no-build"; fi
+    VERIF_SRC="$D/w/src" ./check "$p" --tier quick $NB 2>&1 | grep -E "^\[|VIOLATION|KNOWN-FINDING|broken|disagreement" | cut -c1-400 | head -12
   done
 fi
